@@ -106,7 +106,7 @@ func decodeSurface(c *kit.Ctx) (s1, s2 []*ssa.Function) {
 		kit.Instrs(f, func(in ssa.Instruction) {
 			if call, ok := in.(*ssa.Call); ok {
 				if cal := kit.StaticCallee(call); cal != nil && p.IsSubject(cal) && !seen[cal] && !in1[cal] {
-					switch cal.Name() {
+					switch kit.KnownName(cal) {
 					case "toLocalResult", "toLocalCells", "createRegionSearchKey", "fullyQualifiedTable", "isRegionOverlap", "openRegionScanner", "isRegionScannerClosed", "extractBool":
 						seen[cal] = true
 						s2 = append(s2, cal)
